@@ -122,7 +122,7 @@ SPEC = {
     "extra": extra,
     "level": "translation_validation",
     "rule": "programs = grammars parol accepts: 7 hand-picked grammars (equal text in \"..\", '..', /../; lookahead; scanner states with "
-            "%on/%skip), every *.par under examples/ and crates/parol/data/valid up to 20 kB (quick) / all (thorough), and 2000 (quick) / 60000 (thorough) random PAR "
+            "%on/%skip), every *.par under examples/ and crates/parol/data/valid up to 20 kB (quick) / all (thorough), and 1500 (quick) / 60000 (thorough) random PAR "
             "texts (1-4 non-terminals + 0-3 primary non-terminals, terminals drawn from a per-grammar bias of 1-3 texts in all three "
             "quoting styles, 1/5 with ?= / ?! lookahead, 0-2 %scanner states with <State> prefixes, %on ... %enter/%push/%pop, %skip, "
             "comments / auto_newline_off / auto_ws_off / allow_unmatched, 1/3 LALR(1), EBNF groups) kept when the real pipeline accepts "
